@@ -182,10 +182,20 @@ def oracle_call(case):
             same_result(r1, r2, 'select_copula')
         else:
             m = S.make_copula(fam, theta_from_tau(fam, 0.5))
+            edge = case['seed'] % 3 == 0
+            X0 = X                       # percent_point is only defined for y, v strictly inside (0,1)
+            if edge:
+                # some (not all) rows on the boundary of the unit square: exact 0 / 1 in one or both coordinates
+                X = X.copy()
+                k = min(len(X) // 2, 6)
+                X[:k] = np.array([[0.0, 0.4], [0.3, 0.0], [0.0, 0.0], [1.0, 0.6], [0.7, 1.0], [1.0, 1.0]])[:k]
+                A = as_array(X, kind)
+                cls.append('boundary-rows')
             for meth in ('cdf', 'pdf', 'partial_derivative', 'log_probability_density'):
-                r1, r2 = run_twice(getattr(m, meth), [A], '%s.%s' % (fam, meth), ['points'])
+                r1, r2 = run_twice(getattr(m, meth), [A], '%s.%s' % (fam, meth), ['points'],
+                                   allow=(ValueError, ZeroDivisionError, FloatingPointError) if edge else ())
                 same_result(r1, r2, '%s.%s' % (fam, meth))
-            y, v = as_array(X[:, 0], kind if kind != 'ndarray_f_ro' else 'ndarray_ro'), as_array(X[:, 1], kind if kind != 'ndarray_f_ro' else 'ndarray_ro')
+            y, v = as_array(X0[:, 0], kind if kind != 'ndarray_f_ro' else 'ndarray_ro'), as_array(X0[:, 1], kind if kind != 'ndarray_f_ro' else 'ndarray_ro')
             r1, r2 = run_twice(m.percent_point, [y, v], '%s.percent_point' % fam, ['y', 'v'])
             same_result(r1, r2, fam + '.percent_point')
     elif name in ('gauss_fit', 'gauss_query', 'gauss_sample_cond', 'vine_fit', 'vine_likelihood'):
